@@ -54,10 +54,6 @@ h(["C17", "C19"], "c17", "c17_hilbert_quantize_range_2d", "quick", 300,
 h(["C17", "C19"], "c17", "c17_hilbert_index_errs_5d", "quick", 300,
   "hilbert_index D=5, bits in {0} U (24, 2^32): Ok iff bits in 1..=31 and 5*bits <= 128",
   ["core::util::hilbert::hilbert_index"])
-for (nm, lo, hi) in [("unit", 0, 1), ("m3_5", -3, 5)]:
-    h("C17", "c17", f"c17_hilbert_quantize_monotone_1d_{nm}", "thorough", 3000,
-      f"hilbert_quantize D=1, bounds ({lo},{hi}): monotone for ALL doubles lo <= a <= b <= hi and all bits in 1..=31",
-      ["core::util::hilbert::hilbert_quantize"])
 ORD = ["core::delaunay_triangulation::order_vertices_by_strategy"]
 h("C17", "c17", "c17_order_input_perm_n3", "quick", 300,
   "Input ordering: n=3 vertices, D=2, coordinates in {-2..2} U {-0.0}, duplicates allowed: output is a permutation "
@@ -143,20 +139,34 @@ PROP_ASSUMPTIONS["C12"] = [
 LAT = ("exact lattice: period L = (7-bit significand) * 2^e, |e| <= 30; coordinate v = +-(12-bit significand) * 2^f, "
        "-1000 <= f <= 38, or +-0; |v| <= 256 L")
 WRAP = ("0 <= w < L; v in [0,L) => w = v; wrap(w) = w; w congruent to v modulo L within 8 ulp(L) on the circle")
-h("C16", "c16", "c16_wrap_coord_lattice_1d", "quick", 1500,
+BOX = "0 <= w < L; v in [0,L) => w = v"
+h("C16", "c16", "c16_wrap_coord_box_lattice_1d", "quick", 1500,
+  f"ToroidalSpace::wrap_coord<f64>, D=1, {LAT}: {BOX}", ["topology::spaces::toroidal::ToroidalSpace::wrap_coord"])
+h("C16", "c16", "c16_canonicalize_point_box_lattice_2d", "quick", 1500,
+  f"ToroidalSpace::canonicalize_point, D=2 (axis 0 symbolic, axis 1 fixed), {LAT}: {BOX}",
+  ["topology::spaces::toroidal::<ToroidalSpace as TopologicalSpace>::canonicalize_point"])
+h("C16", "c16", "c16_model_canonicalize_box_lattice_1d", "quick", 1500,
+  f"ToroidalModel::canonicalize_point_in_place<f64>, D=1, {LAT}: Ok and {BOX}",
+  ["topology::traits::global_topology_model::ToroidalModel::canonicalize_point_in_place",
+   "topology::traits::global_topology_model::ToroidalModel::validate_configuration"])
+h("C16", "c16", "c16_wrap_coord_lattice_1d", "thorough", 3600,
   f"ToroidalSpace::wrap_coord<f64>, D=1, {LAT}: {WRAP}", ["topology::spaces::toroidal::ToroidalSpace::wrap_coord"])
-h("C16", "c16", "c16_canonicalize_point_lattice_2d", "quick", 1500,
+h("C16", "c16", "c16_canonicalize_point_lattice_2d", "thorough", 3600,
   f"ToroidalSpace::canonicalize_point, D=2 (axis 0 symbolic, axis 1 fixed), {LAT}: {WRAP}",
   ["topology::spaces::toroidal::<ToroidalSpace as TopologicalSpace>::canonicalize_point"])
-h("C16", "c16", "c16_model_canonicalize_lattice_1d", "quick", 1500,
+h("C16", "c16", "c16_model_canonicalize_lattice_1d", "thorough", 3600,
   f"ToroidalModel::canonicalize_point_in_place<f64>, D=1, {LAT}: Ok and {WRAP}",
   ["topology::traits::global_topology_model::ToroidalModel::canonicalize_point_in_place",
    "topology::traits::global_topology_model::ToroidalModel::validate_configuration"])
-h("C16", "c16", "c16_builder_canonicalize_vertices_2d", "quick", 2400,
+h("C16", "c16", "c16_builder_canonicalize_vertices_2d", "thorough", 6000,
   f"DelaunayTriangulationBuilder::canonicalize_vertices with a toroidal model, one vertex, D=2 (axis 0 symbolic), {LAT}: "
-  f"UUID and user data preserved, {WRAP}",
+  f"UUID and user data preserved, {BOX}",
   ["core::builder::DelaunayTriangulationBuilder::canonicalize_vertices",
    "topology::traits::global_topology_model::ToroidalModel::canonicalize_point_in_place"])
+h("C16", "c16", "c16_model_canonicalize_lattice_1d_f32", "quick", 1500,
+  "ToroidalModel::canonicalize_point_in_place<f32>, D=1, period on the f64 lattice, f32 coordinate with 12-bit significand in "
+  "2^-100..2^38 or +-0: wrapped value (as f64) in [0, L), idempotent",
+  ["topology::traits::global_topology_model::ToroidalModel::canonicalize_point_in_place (T = f32)"])
 h(["C16", "C19"], "c16", "c16_wrap_coord_rejects_bad_input", "quick", 900,
   "ToroidalSpace::wrap_coord over UNRESTRICTED doubles (v, L) and any usize axis: non-finite v, period not finite-positive or "
   "axis out of range => None, never a panic", ["topology::spaces::toroidal::ToroidalSpace::wrap_coord"], kani_args=NOFLOATCHK)
